@@ -1,7 +1,7 @@
 """C08 - variable injection delivers exactly the named robot object or fails at startup."""
 from .. import fn, robot
 from ..interp import AbsRaise, Interp
-from ..values import ClassV, DictV, Ext, Obj, Sym, SymStr
+from ..values import BuiltinV, ClassV, DictV, Ext, Obj, Sym, SymStr
 from . import robotrules as rr
 
 EXPLANATION = (
@@ -22,6 +22,29 @@ EXPLANATION = (
 RULE = "one case = one path of find_injections / get_injection_requests / _collect_injectables / _create_components"
 EXHAUSTIVE = True
 INJ = "magicbot.inject"
+
+
+def _named_plain_attr(p, w, excl_names):
+    """the path decided that the attribute name equals a constant: the name, if that attribute of the robot class is plain public data"""
+    import re as _re
+    from ..values import ClassMethodV, FuncV, PropertyV, StaticV
+
+    for a, v, _ in p.path:
+        if a[0] == "streq" and v:
+            m = _re.search(r"\('const', 'str', '([^']*)'\)", str(a))
+            if not m:
+                continue
+            c = m.group(1)
+            if c.startswith("_") or c in excl_names:
+                return None
+            cls = w["robot"].cls
+            k, val = cls.lookup(c)
+            if k is None or isinstance(val, (FuncV, PropertyV, StaticV, ClassMethodV, BuiltinV)) or getattr(getattr(val, "cls", None), "name", "") == "tunable":
+                return None
+            if isinstance(val, Ext) and val.role in ("function", "userfn", "bound", "class"):
+                return None
+            return c
+    return None
 
 
 def check(ctx):
@@ -203,7 +226,12 @@ def check(ctx):
         d = p.value
         atoms = {a[0] + ":" + str(a[1:])[:60]: v for a, v, _ in p.path}
         private = [v for a, v, _ in p.path if a[0] == "startswith"]
-        excluded = [v for a, v, _ in p.path if a[0] in ("eq", "streq", "in")]
+        # the documented exclusion: membership in the robot's own exclusion list (comparisons with its entries);
+        # any other membership / equality test on the name is an extra filter that must not drop an attribute
+        excl_names = [x for x in getattr(w["robot"].fields.get("_exclude_from_injection"), "items", []) if isinstance(x, str)]
+        member = [(a, v) for a, v, _ in p.path if a[0] in ("eq", "streq", "in")]
+        excluded = [v for a, v in member if any(repr(x) in str(a) for x in excl_names) or not excl_names]
+        extra_filters = [a for a, v in member if v and excl_names and not any(repr(x) in str(a) for x in excl_names)]
         propt = [v for a, v, _ in p.path if a[0] == "isinstance"]
         meth = [v for a, v, _ in p.path if a[0] == "ismethod"]
         should = private == [False] and excluded and not any(excluded) and propt and not any(propt) and meth == [False]
@@ -213,7 +241,12 @@ def check(ctx):
             (k, v), = d.items.items()
             same = isinstance(v, Ext) and v.path.startswith("robot.")
             ctx.require(should and same, "C08.O4", "offered attribute is public, not excluded, not a property/tunable, not a method; the object itself", f"_collect_injectables offers {k!r} -> {v!r} on path {atoms}", site=sitec, key="C08.O4|ci|offer")
-        elif should:
+        elif not has and _named_plain_attr(p, w, excl_names) is not None:
+            nm = _named_plain_attr(p, w, excl_names)
+            ctx.fail("C08.O4", f"_collect_injectables does not offer the robot's plain public attribute '{nm}' (it is not in the exclusion list, not a property/tunable and not a method)", site=sitec, key="C08.O4|ci|named")
+        elif should and not extra_filters:
             ctx.fail("C08.O4", f"_collect_injectables drops a public plain robot attribute (path {atoms})", site=sitec, key="C08.O4|ci|drop")
+        elif should and extra_filters:
+            ctx.fail("C08.O4", f"_collect_injectables drops a public plain robot attribute that is not in the exclusion list, because of another test on its name: {extra_filters[0]!r}", site=sitec, key="C08.O4|ci|extra")
     ctx.require(offered >= 1, "C08.O4", "_collect_injectables offers plain public attributes", "_collect_injectables never offers anything", site=sitec, key="C08.O4|ci|none")
     ctx.sample({"find_injections_paths": len(paths), "collect_injectables_paths": len(ps)})
